@@ -19,6 +19,10 @@
         adp, _ := s.manager.SelectAdapterProxy(msg); adp == nil → return error   pc `select` (`selectAdp none/some a`)
         if s.queueLen > ObjQueueMax → return error               -- pc `gate`   (action `gate`, a plain read)
         atomic.AddInt32(&s.queueLen, 1)                          -- pc `incQ`   (action `incQ`)
+            (`s` is the ServantProxy the call was made on — `Params.proxy`; several ServantProxy objects
+             of one object share the endpoint manager and its adapters, so calls of different proxies
+             meet in the same pending-reply table; the deferred decrement is on the same receiver `s`:
+             `Consts.callQueueLenDecSameReceiver`, re-extracted)
         readCh := make(chan *ResponsePacket)     (unbuffered: `Consts.callReplyChanCap = 0`)
         adp.resp.Store(msg.Req.IRequestId, readCh)               -- pc `store`  (action `store`)
         defer { atomic.AddInt32(&s.queueLen, -1)                 -- pc `decQ o` (action `decQ`)
@@ -170,6 +174,8 @@ structure Params where
   body : Nat                    -- payload tag
   ctxDeadline : Option Nat      -- `ctx.Deadline()` (absolute model time)
   callTimeout : Option Nat      -- `current.GetClientTimeout(ctx)`
+  proxy : Nat                   -- which `ServantProxy` object (receiver `s`) makes the call; all proxies of the
+                                -- object share the endpoint manager and its adapters, each has its own `queueLen`
   deriving DecidableEq, Hashable, Repr
 
 structure Call where
@@ -220,7 +226,7 @@ structure State where
   gen : Gen
   calls : List Call
   table : List Entry
-  queueLen : Int
+  queueLens : List Int         -- `s.queueLen` of every ServantProxy object (index = `Params.proxy`)
   invokeNum : Int
   conns : List Conn
   rcvs : List Rcv
@@ -241,8 +247,17 @@ def tDelete (t : List Entry) (a : Nat) (id : Int) : List Entry := t.filter (fun 
 /-- `sync.Map.Store` (replaces) -/
 def tStore (t : List Entry) (a : Nat) (id : Int) (i : Nat) : List Entry := ⟨a, id, i⟩ :: tDelete t a id
 
+/-- `s.queueLen` of proxy `p` (0 for a proxy that has not been created) -/
+def qGet (l : List Int) (p : Nat) : Int := l[p]?.getD 0
+
+/-- `atomic.AddInt32(&s.queueLen, d)` on proxy `p` -/
+def qAdd (l : List Int) (p : Nat) (d : Int) : List Int := l.set p (qGet l p + d)
+
+/-- make room for the counter of proxy `p` (a new `ServantProxy` starts with `queueLen = 0`) -/
+def qPad (l : List Int) (p : Nat) : List Int := l ++ List.replicate (p + 1 - l.length) 0
+
 def init (cfg : Cfg) (ctr : Int) : State :=
-  { gen := ⟨ctr, []⟩, calls := [], table := [], queueLen := 0, invokeNum := 0,
+  { gen := ⟨ctr, []⟩, calls := [], table := [], queueLens := [], invokeNum := 0,
     conns := List.replicate cfg.nAdp ⟨true, false, []⟩, rcvs := [], emitted := [] }
 
 inductive CallAct
@@ -299,12 +314,12 @@ def callStep (cfg : Cfg) (s : State) (i : Nat) (c : Call) : CallAct → Option S
   | .gate =>
     match c.pc with
     | .gate =>
-      if s.queueLen > cfg.objQueueMax then some (s.setCall i { c with pc := .post .queueFull })
+      if qGet s.queueLens c.par.proxy > cfg.objQueueMax then some (s.setCall i { c with pc := .post .queueFull })
       else some (s.setCall i { c with pc := .incQ })
     | _ => none
   | .incQ =>
     match c.pc with
-    | .incQ => some { s.setCall i { c with pc := .store } with queueLen := s.queueLen + Consts.callQueueLenInc }
+    | .incQ => some { s.setCall i { c with pc := .store } with queueLens := qAdd s.queueLens c.par.proxy Consts.callQueueLenInc }
     | _ => none
   | .store =>
     match c.pc with
@@ -343,7 +358,7 @@ def callStep (cfg : Cfg) (s : State) (i : Nat) (c : Call) : CallAct → Option S
     | _ => none
   | .decQ =>
     match c.pc with
-    | .decQ o => some { s.setCall i { c with pc := .del o } with queueLen := s.queueLen - Consts.callQueueLenInc }
+    | .decQ o => some { s.setCall i { c with pc := .del o } with queueLens := qAdd s.queueLens c.par.proxy (-(Consts.callQueueLenInc : Int)) }
     | _ => none
   | .del =>
     match c.pc with
@@ -363,7 +378,7 @@ def lookupPc (t : List Entry) (a : Nat) (p : Pkt) : RPc :=
     | none => .dropped
 
 def step (cfg : Cfg) (s : State) : Action → Option State
-  | .spawn par => some { s with calls := s.calls ++ [⟨par, .idle, 0, 0, 0⟩] }
+  | .spawn par => some { s with calls := s.calls ++ [⟨par, .idle, 0, 0, 0⟩], queueLens := qPad s.queueLens par.proxy }
   | .call i a =>
     match s.calls[i]? with
     | some c => callStep cfg s i c a
